@@ -85,6 +85,16 @@ func directC01lit(g *G, rep *Report) {
 		}
 		rep.Distribution["unicode-escape:utf8-len-"+strconv.Itoa(utf8.RuneLen(rune(cp)))]++
 	}
+	// 1b. a high surrogate escape followed by a low surrogate escape is ONE character beyond the BMP (Soy strings are
+	// UTF-16 in the reference implementation: '\uD83D\uDE00' is U+1F600)
+	for _, hi := range []int{0xD800, 0xD83D, 0xD83E, 0xDB40, 0xDBFF} {
+		for _, lo := range []int{0xDC00, 0xDE00, 0xDD25, 0xDFFF} {
+			cp := 0x10000 + (hi-0xD800)<<10 + (lo - 0xDC00)
+			esc := fmt.Sprintf(`\u%04X\u%04x`, hi, lo)
+			checkStr("surrogate-pair-escape", "'"+esc+"'", string(rune(cp)))
+			checkStr("surrogate-pair-escape", "'a"+esc+"b"+esc+"'", "a"+string(rune(cp))+"b"+string(rune(cp)))
+		}
+	}
 	// 2. single-character escapes
 	for esc, want := range map[string]string{`\\`: "\\", `\'`: "'", `\"`: "\"", `\n`: "\n", `\r`: "\r", `\t`: "\t", `\b`: "\b", `\f`: "\f"} {
 		checkStr("char-escape", "'"+esc+"'", want)
